@@ -19,10 +19,11 @@ EXPLANATION = (
     "n_failure_cases reaches only failure-case truncation (no flow into check_output / check_passed); (R5) "
     "raise_warning: warnings.warn is reached only when the check failed and raise_warning is set, the branch returns "
     "CoreCheckResult(passed=True) and cannot raise; (R6) groups restricts the dict given to the check function and "
-    "unknown groups raise. NOT decided: the metamorphic equalities over predicates and data."
+    "unknown groups raise. (R7) definite assignment: no function of the Check API / check backend modules reads a local that a branch-only path from its entry leaves unassigned (CFG may-analysis, optimistic about try bodies and loop bodies, correlated guards pruned, non-empty local accumulators accepted as witnesses) - an UnboundLocalError there would escape the check. " 
+    "NOT decided: the metamorphic equalities over predicates and data."
 )
 LEVEL_RULE = "one obligation per constructor / backend function / option use site"
-FLOORS = {"R1": 22, "R2": 4, "R3": 5, "R4": 2, "R5": 4, "R6": 3}
+FLOORS = {"R1": 22, "R2": 4, "R3": 5, "R4": 2, "R5": 4, "R6": 3, "R7": 1}
 
 ALIASES = {"eq": "equal_to", "ne": "not_equal_to", "gt": "greater_than", "ge": "greater_than_or_equal_to",
            "lt": "less_than", "le": "less_than_or_equal_to", "between": "in_range"}
@@ -339,6 +340,8 @@ def r6_groups(ctx):
 
 
 def run(ctx):
+    from ..defassign import check_modules
+    check_modules(ctx, "R7", ('pandera/api/checks.py', 'pandera/api/base/checks.py', 'pandera/api/extensions.py', 'pandera/backends/pandas/checks.py', 'pandera/backends/polars/checks.py', 'pandera/backends/base/__init__.py'), "escapes the check instead of a verdict")
     r1_aliases(ctx)
     r2_element_wise(ctx)
     r3_ignore_na(ctx)
